@@ -17,6 +17,7 @@ type CompObs struct {
 	S2T     string // sorted "sl,sc,tl,tc;" list
 	T2S     string
 	GenSame string // implementation only: same | diff:<hex> | na
+	Lookups string // implementation only: ok | bad:<hex> — the two lookup functions against their own tables
 	EmitErr string
 	Chk     string // model only: S/s = source runs pairwise disjoint or not, T/t = target runs
 }
@@ -114,6 +115,9 @@ func parseImplReply(r proc.Reply) CompObs {
 	o.S2T = strings.TrimSuffix(f[2], "X")
 	o.T2S = strings.TrimSuffix(f[3], "X")
 	o.GenSame = f[4]
+	if len(f) >= 6 {
+		o.Lookups = f[5]
+	}
 	return o
 }
 
